@@ -93,7 +93,7 @@ PROPS = {
     ),
     'C01': dict(
         title='pack then unpack returns an equal message',
-        modules=['Pbc.Lemmas.Elem', 'Pbc.Props.C02', 'Pbc.Props.C01', 'Pbc.Props.C01b', 'Pbc.Props.C01c'],
+        modules=['Pbc.Lemmas.Elem', 'Pbc.Props.C02', 'Pbc.Props.C01', 'Pbc.Props.C01b', 'Pbc.Props.C01c', 'Pbc.Props.C01d'],
         theorems=['Pbc.Lemmas.parseScalar_scalarBytes', 'Pbc.Lemmas.scanKey_keyBytes', 'Pbc.Lemmas.scanLen_lenPrefixed',
                   'Pbc.Lemmas.scalarBytes_scan_varint', 'Pbc.Lemmas.unzigzag32_zigzag32', 'Pbc.Lemmas.unzigzag64_zigzag64',
                   'Pbc.Lemmas.loadLE_le32', 'Pbc.Lemmas.loadLE_le64', 'Pbc.Props.C02.packMsg_length',
@@ -101,18 +101,20 @@ PROPS = {
                   'Pbc.Props.C01.scanLoop_recs', 'Pbc.Props.C01.pack_scans',
                   'Pbc.Props.C01.parseRequired_elem', 'Pbc.Props.C01.parsePacked_elems', 'Pbc.Props.C01.parse_slot', 'Pbc.Props.C01.parse_slots',
                   'Pbc.Props.C01.roundtrip_level', 'Pbc.Props.C01.roundtrip_partial', 'Pbc.Props.C01.unpack_pack_partial',
-                  'Pbc.Props.C01.step', 'Pbc.Props.C01.roundtrip_level_oneof', 'Pbc.Props.C01.roundtrip', 'Pbc.Props.C01.unpack_pack'],
+                  'Pbc.Props.C01.step', 'Pbc.Props.C01.roundtrip_level_oneof', 'Pbc.Props.C01.roundtrip', 'Pbc.Props.C01.unpack_pack',
+                  'Pbc.Props.C01.nested_facts', 'Pbc.Props.C01.canon_depth', 'Pbc.Props.C01.unpack_pack_canonical'],
         refine=PACK_LEAVES + PARSE_LEAVES + TABLE_LEAVES,
         cases=[('msg', 300, 5000, []), ('leaf', 20, 200, [])],
         oracle='c01',
     ),
     'C03': dict(
         title='packed bytes are valid protobuf with the same meaning (encoder interop)',
-        modules=['Pbc.Props.C02', 'Pbc.Lemmas.Elem', 'Pbc.Props.C01b', 'Pbc.Props.C01c'],
+        modules=['Pbc.Props.C02', 'Pbc.Lemmas.Elem', 'Pbc.Props.C01b', 'Pbc.Props.C01c', 'Pbc.Props.C01d', 'Pbc.Props.C03'],
         theorems=['Pbc.Props.C02.packMsg_length', 'Pbc.Lemmas.parseScalar_scalarBytes', 'Pbc.Lemmas.scanKey_keyBytes',
                   'Pbc.Lemmas.scanLen_lenPrefixed', 'Pbc.Lemmas.scalarBytes_scan_varint',
+                  'Pbc.Props.C03.varint_shortest', 'Pbc.Props.C03.scalar_encoding', 'Pbc.Props.C03.packed_iff_flag',
                   'Pbc.Props.C01.roundtrip_partial',
-                  'Pbc.Props.C01.roundtrip'],
+                  'Pbc.Props.C01.roundtrip', 'Pbc.Props.C01.unpack_pack_canonical'],
         refine=PACK_LEAVES + SIZE_LEAVES + TABLE_LEAVES,
         cases=[('enc', 300, 5000, [])], gen=(8, 48),
         oracle='c03', ref=True,
